@@ -4,11 +4,19 @@
   `parseSource pf input` = lexer model ∘ parser model (tied to the real code by the zero-diff
   sub-checks C05lex / C05parse, op `parsesrc`).
 
-  * `err_pos_in_input` — every error `err pos` has `pos ≤ |input|`: the parser only reports
-    the position of a token it was given (or 0, the zero item of the closed channel;
-    `parse_err_at_token`), and every token of the lexer — Error items of `errorf` and
-    `errorfAt` included — is positioned inside the input (`lex_items`).  Hence the slices
-    `l.input[:pos]` of `lineNumber` / `columnNumber` are in range, and
+  * `err_at_token` — WHICH position: an error `err pos` of `parse.SoyFile` is positioned at
+    one of the tokens the lexer produced for this input (`parse_err_at_lexed_token` on
+    `lex_shape`): at the Error item for a lexical error, at the token handed to `unexpected`
+    or the parser's current token otherwise — and NOT at the zero item (0:0) that the closed
+    channel yields when the parser has read one token of look-ahead past the end (before
+    /repo 518abbf a block left open at EOF was reported at line 1, column 0).  The invariant
+    behind it (Lemmas/ParserSafe `LexJ`): on a stream that ends with its only EOF / Error item
+    the parser never continues after consuming that item, so apart from textOrTag's
+    look-ahead it never reads the closed channel, and no token it holds is the zero item.
+  * `err_pos_in_input` — every error `err pos` has `pos ≤ |input|`: every token of the
+    lexer — Error items of `errorf` and `errorfAt` included — is positioned inside the input
+    (`lex_items`).  Hence the slices `l.input[:pos]` of `lineNumber` / `columnNumber` are in
+    range, and
   * `err_line_in_range` — 1 ≤ line ≤ number of lines of the input.
   * `err_in_this_file` — there is no other kind of positioned error: since /repo 62f3398 an
     error inside a quoted attribute expression is re-raised by the enclosing parser, so every
@@ -26,6 +34,16 @@ def lineNumber (input : Bytes) (pos : Nat) : Nat := 1 + ((input.take pos).filter
 
 /-- number of lines of the input -/
 def lineCount (input : Bytes) : Nat := 1 + (input.filter (· == 10)).length
+
+/-- an error of lexer ∘ parser is positioned at a token of the lexer's stream for this input -/
+theorem err_at_token (pf : Bytes → Option UInt64) (input : Bytes) (pos : Nat)
+    (h : parseSource pf input = .error (.err pos)) :
+    ∃ is, Lex.lexAll input false = .items is ∧ ∃ it ∈ is, it.pos = pos :=
+  parse_source_err_at_token pf input pos h
+
+theorem soyFile_err_at_token (input : Bytes) (pos : Nat) (h : soyFile input = .error (.err pos)) :
+    ∃ is, Lex.lexAll input false = .items is ∧ ∃ it ∈ is, it.pos = pos :=
+  err_at_token parseFloat64 input pos h
 
 theorem err_pos_in_input (pf : Bytes → Option UInt64) (input : Bytes) (pos : Nat)
     (h : parseSource pf input = .error (.err pos)) : pos ≤ input.length := by
@@ -63,5 +81,30 @@ theorem err_in_this_file (pf : Bytes → Option UInt64) (input : Bytes) (e : FEr
     soft-float ParseFloat tied by C20f64): no parameter is left open -/
 theorem soyFile_err_in_this_file (input : Bytes) (e : FErr) (h : soyFile input = .error e) :
     ∃ pos, e = .err pos ∧ pos ≤ input.length := err_in_this_file parseFloat64 input e h
+
+/-! ### Non-vacuity -/
+
+/-- the tokens of `{log}` followed by the end of the input: the {log} block is never closed -/
+def openLog : List Item :=
+  [⟨.tLeftDelim, 1, [123]⟩, ⟨.tLog, 4, [108, 111, 103]⟩, ⟨.tRightDelim, 5, [125]⟩, ⟨.tEOF, 5, []⟩]
+
+example : LexShape openLog := by
+  refine ⟨by simp [openLog], ?_, ?_⟩
+  · intro x hx
+    simp [openLog, List.dropLast] at hx
+    rcases hx with rfl | rfl | rfl <;> rfl
+  · intro x hx
+    simp [openLog, List.getLast?] at hx
+    subst hx
+    exact ⟨by simp [Lemmas.ParserSafe.valid], rfl⟩
+
+set_option maxHeartbeats 4000000 in
+/-- the parser reads the EOF item, then one token of look-ahead from the closed channel (the
+    zero item, position 0), and reports the EOF item — position 5, not 0 -/
+example : parseFile (fun _ => none) (exprFuel openLog) openLog = .error (.err 5) := by rfl
+
+/-- a lexical error is reported at the Error item (here an unclosed tag that began at 3) -/
+example : parseFile (fun _ => none) (exprFuel [⟨.tText, 3, [97, 98, 99]⟩, ⟨.tError, 3, [1]⟩])
+    [⟨.tText, 3, [97, 98, 99]⟩, ⟨.tError, 3, [1]⟩] = .error (.err 3) := by rfl
 
 end SoyVerif.Props.C19
